@@ -212,6 +212,39 @@ impl Check for C19 {
                 }
             });
         }
+        // long surfaces: one-hot at positions around 0, 256 and the far end of each row / column
+        for &(w, h) in &[(300i32, 2i32), (2, 300), (257, 3)] {
+            let n = (w * h) as usize;
+            let mut positions: Vec<usize> = Vec::new();
+            for y in [0, 1, h / 2, h - 2, h - 1] {
+                for x in [0, 1, 255.min(w - 1), 256.min(w - 1), w / 2, w - 2, w - 1] {
+                    if x >= 0 && y >= 0 {
+                        positions.push((y * w + x) as usize);
+                    }
+                }
+            }
+            positions.sort();
+            positions.dedup();
+            run.bound(&format!("one-hot {}x{}", w, h), format!("{} positions x 3 values x 2 backgrounds", positions.len()));
+            run.par(positions.len(), |pi, l| {
+                let pos = positions[pi];
+                for bg in [0x00000000u32, 0xff123456] {
+                    for &v in &[PIX12[1], PIX12[5], PIX12[9]] {
+                        let mut px = vec![bg; n];
+                        px[pos] = v;
+                        l.states += 1;
+                        l.transitions += 8 + 2 * n as u64;
+                        l.traces += 1;
+                        l.evals += 1;
+                        l.nontrivial += 1;
+                        match eval_surface(&root, 3000 + pi, w, h, &px) {
+                            Ok(hh) => l.outcome(hh),
+                            Err(e) => run.report(3000 + pi, e),
+                        }
+                    }
+                }
+            });
+        }
         // every (a, c <= a) pair, for each colour channel: un-premultiply must be floor(c*255/a)
         run.bound("unpremultiply table", "all 32896 (alpha, colour <= alpha) pairs x 3 channel positions, as 256-pixel-wide surfaces through write_png".to_string());
         run.par(3 * 16, |s, l| {
